@@ -23,6 +23,9 @@
                         later than t1 + 2T (+ rounding), or cleanup() returns later than that (+ tail)
      AllClosedAtReturn  a transport is still open / a connection still registered when cleanup() returns
      StopSitesFirst     on_shutdown begins while a site is still listening
+     ClosedOnCompletion when on_shutdown returns (open = connections still open), a connection whose handler
+                        finished strictly earlier during the shutdown is still open with nothing in progress
+                        (docs step 2: active connections are set to close upon completion)
      IdleOpenDuringOnShutdown   (named shape of IdleClosedAtOnce, docs step 2 before step 3) a connection
                         with no request in progress is still open when on_shutdown begins.  It is
      LostConnHandlerSurvivesShutdown   (named shape of CancelledBy2T) the handler of a connection the
@@ -38,9 +41,9 @@ ToSet(q) == {q[i] : i \in 1..Len(q)}
 NoT == 1000000
 
 C0 == [started |-> 0, ended |-> 0, inflight |-> FALSE, cancelled |-> FALSE, before |-> 0,
-       dropped |-> FALSE, closed |-> FALSE]
+       dropped |-> FALSE, closed |-> FALSE, lastEnd |-> NoT]
 
-M0(c) == [conns |-> [x \in DOMAIN c.kinds |-> C0], sigBegun |-> FALSE, t1 |-> NoT, sitesStopped |-> FALSE,
+M0(c) == [conns |-> [x \in DOMAIN c.kinds |-> C0], sigBegun |-> FALSE, sigT |-> NoT, t1 |-> NoT, sitesStopped |-> FALSE,
           called |-> FALSE, dev |-> <<>>]
 
 Slack(c) == IF c.ceil = 1 THEN c.scale ELSE 0
@@ -51,7 +54,7 @@ Apply(mm, e) ==
       [] e.ev = "handler_start" ->
              [mm EXCEPT !.conns = [@ EXCEPT ![e.c] = [@ EXCEPT !.started = @ + 1, !.inflight = TRUE, !.cancelled = FALSE]]]
       [] e.ev = "handler_end" ->
-             [mm EXCEPT !.conns = [@ EXCEPT ![e.c] = [@ EXCEPT !.ended = @ + 1, !.inflight = FALSE]]]
+             [mm EXCEPT !.conns = [@ EXCEPT ![e.c] = [@ EXCEPT !.ended = @ + 1, !.inflight = FALSE, !.lastEnd = e.t]]]
       [] e.ev = "handler_abort" ->
              [mm EXCEPT !.conns = [@ EXCEPT ![e.c] = [@ EXCEPT !.inflight = FALSE]]]
       [] e.ev = "handler_cancel" ->
@@ -63,7 +66,7 @@ Apply(mm, e) ==
       [] e.ev = "cleanup_call" -> [mm EXCEPT !.called = TRUE]
       [] e.ev = "site_stop" -> [mm EXCEPT !.sitesStopped = TRUE]
       [] e.ev = "on_shutdown_begin" ->
-             [mm EXCEPT !.sigBegun = TRUE,
+             [mm EXCEPT !.sigBegun = TRUE, !.sigT = e.t,
                         !.dev = IF \E x \in ToSet(e.open) : ~mm.conns[x].inflight
                                                                   /\ mm.conns[x].started >= mm.conns[x].before
                                 THEN Append(@, "IdleOpenDuringOnShutdown") ELSE @]
@@ -82,6 +85,9 @@ Clause(mm, e, c) ==
       [] e.ev = "closed" /\ mm.called /\ k.inflight /\ ~k.cancelled /\ ~k.dropped /\ c.kinds[e.c] # "ws"
             /\ (mm.t1 = NoT \/ e.t < mm.t1 + c.T) -> "GraceRespected"
       [] e.ev = "on_shutdown_begin" /\ ~mm.sitesStopped -> "StopSitesFirst"
+      [] e.ev = "on_shutdown_end" /\ (\E x \in ToSet(e.open) :
+              /\ ~mm.conns[x].inflight /\ mm.conns[x].started >= mm.conns[x].before
+              /\ mm.conns[x].lastEnd # NoT /\ mm.conns[x].lastEnd >= mm.sigT /\ mm.conns[x].lastEnd < e.t /\ c.kinds[x] # "ws") -> "ClosedOnCompletion"
       [] e.ev = "on_cleanup" /\ e.open # <<>> -> "AllClosedAtReturn"
       [] e.ev = "cleanup_return" /\ (e.open # <<>> \/ e.n # 0) -> "AllClosedAtReturn"
       [] e.ev = "cleanup_return" /\ (\E x \in DOMAIN mm.conns : mm.conns[x].inflight /\ ~mm.conns[x].cancelled
